@@ -16,7 +16,7 @@
 From Coq Require Import ZArith List Bool Arith Lia.
 From Romea Require Import WrapGridModel.
 Import ListNotations.
-Open Scope Z_scope.
+Local Open Scope Z_scope.
 
 Inductive ty := U64 | I32 | ZZ.   (* ZZ: unbounded integer — only in the trip counts written by the translator *)
 
